@@ -615,6 +615,58 @@ pub fn run(rt: &tokio::runtime::Runtime, cols: &[&str]) -> Value {
                 }
             }
         }
+        // l_api <hex text> <cfg> <ops>: FieldConsumptionTracker's own interface over the whole map (f) and the maps of the split
+        // (a b c), ONE tracker for all: M|tag|k, G|tag, C|part|tag (see runner/main.ml)
+        "l_api" => {
+            let t = unhex_str(cols[1]).unwrap_or_default();
+            let fields = match swift_mt_message::parser::parse_block4_fields(&t) {
+                Ok(f) => f,
+                Err(e) => return err_json(&e),
+            };
+            let cfg = if let Some(rest) = cols[2].strip_prefix("cfg:") {
+                let p: Vec<&str> = rest.split(':').collect();
+                swift_mt_message::parser::SequenceConfig {
+                    sequence_b_marker: p.first().unwrap_or(&"21").to_string(),
+                    has_sequence_c: p.get(1) == Some(&"1"),
+                    sequence_c_fields: p.get(2).map(|x| x.split(',').filter(|y| !y.is_empty()).map(|y| y.to_string()).collect()).unwrap_or_default(),
+                }
+            } else { swift_mt_message::parser::get_sequence_config(cols[2]) };
+            let parts = match swift_mt_message::parser::split_into_sequences(&fields, &cfg) {
+                Ok(p) => p,
+                Err(e) => return err_json(&e),
+            };
+            let empty: Vec<(String, usize)> = Vec::new();
+            let mut tracker = swift_mt_message::parser::FieldConsumptionTracker::new();
+            let mut outs: Vec<Value> = Vec::new();
+            for op in cols.get(3).copied().unwrap_or("").split(';').filter(|s| !s.is_empty()) {
+                let p: Vec<&str> = op.split('|').collect();
+                match p.as_slice() {
+                    ["M", tag, k] => {
+                        let vals = fields.get(*tag).unwrap_or(&empty);
+                        if vals.is_empty() { outs.push(Value::Null); } else {
+                            let pos = vals[k.parse::<usize>().unwrap_or(0) % vals.len()].1;
+                            tracker.mark_consumed(tag, pos);
+                            outs.push(json!(["m", pos]));
+                        }
+                    }
+                    ["G", tag] => {
+                        let vals = fields.get(*tag).unwrap_or(&empty);
+                        outs.push(match tracker.get_next_available(tag, vals) { Some((v, pos)) => json!([v, pos]), None => Value::Null });
+                    }
+                    ["C", part, tag] => {
+                        let m = match *part { "a" => &parts.sequence_a, "b" => &parts.sequence_b, "c" => &parts.sequence_c, _ => &fields };
+                        let vals = m.get(*tag).unwrap_or(&empty);
+                        let r = tracker.get_next_available(tag, vals).map(|(v, pos)| (v.to_string(), pos));
+                        match r {
+                            Some((v, pos)) => { tracker.mark_consumed(tag, pos); outs.push(json!([v, pos])); }
+                            None => outs.push(Value::Null),
+                        }
+                    }
+                    _ => outs.push(json!("?")),
+                }
+            }
+            json!({"ok": true, "outs": outs})
+        }
         // header codecs and block extraction
         "hdr1" => {
             let t = unhex_str(cols[1]).unwrap_or_default();
